@@ -9,7 +9,7 @@ What this check does
     components; every sweep is "legal" (SweepLegal); one-thread sweeps equal the operator SeqSweep.
  2. Mode A: every instance TLC emits is replayed into the real code
         properties.find_ND_labels, pks_table.find_uniq (numba and scipy routes),
-        pks_table.pk2dmerge (with / without scale_factor), pks_table.pk2d
+        pks_table.pk2dmerge (with / without scale_factor), pks_table.pk2d, numbapkmerge called directly
     - individually and as disjoint unions (two edge layouts) - and judged by the property statement
     against the specification's values,
     at numba thread counts 1, 2, 3, 4, 5, 7, 8, 12, 16 (non powers of two give uneven prange chunks).
@@ -41,7 +41,18 @@ What this check does
  6. Harness-only families where the model is covariant (said so in the LabelND header): table value
     classes (sI to 1e9, monitor-style non-dyadic scale factors, scale = 0, Fortran-ordered / float32 /
     strided omega, dty, scale) judged against exact integer arithmetic on the binary values of the
-    inputs; thread counts above NUMBA_NUM_THREADS (17, 24, 32) and the workqueue threading layer in
+    inputs;
+    SIGN classes of the weights w = sI * scale (the statement's "intensity-weighted means ... with
+    per-frame scale factors applied when given" is sum(w x) / sum(w) for ANY non-zero total): LabelND
+    Neg = TRUE (configurations seq, hist, q2, ds; thorough tree5, e4, ds4) has a negative intensity, a
+    negative direct scale factor and monitors that read below zero on a frame - merged peaks of
+    negative total, of positive total with negative members, of total exactly 0 (mean undefined: only
+    the sums are judged); the random tables of EVERY seeded family / history / child job carry ~10 %
+    negative sI and ~12 % negative scale factors; value classes neg (negative scale factors and
+    negative sI, >= 1000-member merged peaks of either sign, components that cancel exactly with and
+    without the scale factors) and negmon (DataSet route: monitor dips below zero -> pk4d / pk2d with
+    negative monitor_ref / monitor); on every merge route: pk2dmerge, pk2d, numbapkmerge directly,
+    scipy-labelled table, save + load, DataSet.pk4d / pk2d; thread counts above NUMBA_NUM_THREADS (17, 24, 32) and the workqueue threading layer in
     child processes (tbb when importable).
  7. The literal user route in a child process: properties.main(dsfile) on small synthetic sinograms
     (sparse-pixel file + dataset file written with h5py / DataSet.save): goforit() -> worker processes
@@ -261,6 +272,14 @@ def observe(P, n, ei, ej, table, direct=True, scipy_route=True, merge=True, merg
                 for k in range(1, merge_reps):
                     obs["merge_u#%d" % k] = t.pk2dmerge(om, dy)
                     obs["merge_s#%d" % k] = t.pk2dmerge(om, dy, scale_factor=sc)
+                # the kernel itself, called directly by the caller on a zeroed buffer (what pk2dmerge wraps)
+                try:
+                    for key, sf in (("kernel_u", None), ("kernel_s", sc)):
+                        out = np.zeros((7, int(t.nlabel)), float)
+                        P.numbapkmerge(t.glabel, t.pk_props, om, dy, out, scale_factor=sf)
+                        obs[key] = out
+                except Exception as e:
+                    obs["kernel_exc"] = repr(e)
     except Exception as e:
         obs["table_exc"] = repr(e)
     if scipy_route:
@@ -286,9 +305,10 @@ def judge(n, root, table, obs, stats=None, spec=None):
     (oracle or specification).  spec = TLC record (optional): its nlabel / labels / merged rows are
     compared as THE value; a valid renumbering is counted, not reported."""
     problems = []
-    for k in ("direct_exc", "table_exc", "scipy_exc"):
+    for k in ("direct_exc", "table_exc", "scipy_exc", "kernel_exc"):
         if k in obs:
-            problems.append("%s raised %s" % (k[:-4], obs[k]))
+            problems.append("%s raised %s" % ({"kernel_exc": "numbapkmerge called directly (out = zeros((7, nlabel)))"}
+                                             .get(k, k[:-4]), obs[k]))
     valid = None
     for route in ("direct", "find_uniq", "attrs", "scipy"):
         if route not in obs:
@@ -308,7 +328,12 @@ def judge(n, root, table, obs, stats=None, spec=None):
         nl, lab = valid
         for key in sorted(obs):
             if key.startswith("merge_") and "@" not in key and len(problems) < 5:
-                problems += L.judge_merge(table, lab, nl, key.startswith("merge_s"), obs[key])
+                problems += L.judge_merge(table, lab, nl, key.startswith("merge_s"), obs[key],
+                                          stats if key in ("merge_u", "merge_s") else None)
+            if key.startswith("kernel_") and len(problems) < 5:
+                problems += L.judge_kernel(table, lab, nl, key == "kernel_s", obs[key])
+                if stats is not None:
+                    stats["numbapkmerge_called_directly"] = stats.get("numbapkmerge_called_directly", 0) + 1
         for key, scaled in (("pk2d_u", False), ("pk2d_s", True)):
             if key in obs:
                 problems += L.judge_pk2d(table, lab, scaled, obs[key])
@@ -340,9 +365,10 @@ def judge_spec_rows(spec, lab, obs):
         m = obs[key]
         for k, cl in enumerate(code_label):
             want = {"Number_of_pixels": Fraction(rows[0][k]), "sum_intensity": Fraction(rows[1][k], den),
-                    "s_raw": Fraction(rows[2][k], rows[1][k]), "f_raw": Fraction(rows[3][k], rows[1][k]),
-                    "omega": Fraction(rows[4][k], rows[1][k]), "dty": Fraction(rows[5][k], rows[1][k]),
                     "npk2d": Fraction(rows[6][k])}
+            if rows[1][k] != 0:          # weights of any sign; total weight 0: the mean is undefined
+                want.update({"s_raw": Fraction(rows[2][k], rows[1][k]), "f_raw": Fraction(rows[3][k], rows[1][k]),
+                             "omega": Fraction(rows[4][k], rows[1][k]), "dty": Fraction(rows[5][k], rows[1][k])})
             for name, e in want.items():
                 x = float(m[name][cl])
                 if not L.close(x, e, max(1.0, abs(float(e)))):
@@ -728,9 +754,10 @@ def rows_problems(what, rows, den, cmin, lab, m):
     for k, r in enumerate(roots):
         cl = int(lab[r])
         want = {"Number_of_pixels": Fraction(rows[0][k]), "sum_intensity": Fraction(rows[1][k], den),
-                "s_raw": Fraction(rows[2][k], rows[1][k]), "f_raw": Fraction(rows[3][k], rows[1][k]),
-                "omega": Fraction(rows[4][k], rows[1][k]), "dty": Fraction(rows[5][k], rows[1][k]),
                 "npk2d": Fraction(rows[6][k])}
+        if rows[1][k] != 0:              # weights of any sign; total weight 0: the mean is undefined
+            want.update({"s_raw": Fraction(rows[2][k], rows[1][k]), "f_raw": Fraction(rows[3][k], rows[1][k]),
+                         "omega": Fraction(rows[4][k], rows[1][k]), "dty": Fraction(rows[5][k], rows[1][k])})
         for name, e in want.items():
             x = float(m[name][cl])
             if not L.close(x, e, max(1.0, abs(float(e)))):
@@ -1199,7 +1226,9 @@ def seeded_plan(tier, threads):
                 ("random_sparse", big, threads, {}), ("sinogram", big, threads, {}),
                 ("vclass", 24000, few, {"vtable": ("wide", "mixA")}),
                 ("vclass", 24000, few, {"vtable": ("monitor", "C64")}),
-                ("vclass", 24000, few, {"vtable": ("zero", "mixB")})]
+                ("vclass", 24000, few, {"vtable": ("zero", "mixB")}),
+                ("vclass", 24000, few, {"vtable": ("neg", "mixA")}),
+                ("vclass", 24000, few[:2], {"vtable": ("negmon", "C64")})]
     else:
         big = 1000000
         plan = [("chain_random", 60, threads, {}), ("chain_random", 200, threads, {}), ("chain_random", 30000, lo, {}),
@@ -1211,9 +1240,9 @@ def seeded_plan(tier, threads):
                 ("dups_loops", big, threads, {}), ("dups_loops", 5000, threads, {}),
                 ("no_edges", big, threads, {}), ("no_edges", 1, threads, {}), ("random_sparse", big, threads, {}),
                 ("random_sparse", 20000, threads, {}), ("sinogram", big, threads, {}), ("sinogram", 30000, threads, {})]
-        for kind in ("wide", "monitor", "zero"):
+        for kind in L.VKINDS:
             for lay in L.LAYOUTS:
-                if kind == "monitor" and lay != "C64":
+                if kind in ("monitor", "negmon") and lay != "C64":
                     continue
                 plan.append(("vclass", 24000, few, {"vtable": (kind, lay)}))
         plan.append(("vclass", 100000, few, {"vtable": ("wide", "C64")}))
@@ -1247,6 +1276,12 @@ def seeded(chk, tier, stats):
             v = vac.setdefault(table.kind, {"runs": 0})
             v.update({"merged_peaks": int(nl_e), "merged_peaks_with_1000_or_more_members": int((sizes >= 1000).sum()),
                       "merged_peaks_of_total_weight_0_means_not_judged": int(sum(1 for x in ex["num"][1] if x == 0)),
+                      "merged_peaks_of_negative_total_weight": int(sum(1 for x in ex["num"][1] if x < 0)),
+                      "merged_peaks_of_negative_total_weight_with_1000_or_more_members":
+                          int(sum(1 for x, z in zip(ex["num"][1], sizes) if x < 0 and z >= 1000)),
+                      "merged_peaks_of_positive_total_weight_with_negative_members":
+                          int(sum(1 for j, x in enumerate(ex["num"][1]) if x > 0 and ex["absn"][1][j] != x)),
+                      "2d_peaks_with_negative_sI": int((table.props[1] < 0).sum()),
                       "merged_peaks_with_zero_and_nonzero_scale_members": int(mixed_zero(table, lab_e, nl_e)),
                       "max_sI": int(table.props[1].max()),
                       "scale_min_max": [float(np.min(table.scale())), float(np.max(table.scale()))],
@@ -2012,8 +2047,10 @@ def synthetic_obs(n, root, table):
     for key, scaled in (("merge_u", False), ("merge_s", True)):
         ex = L.merged_exact(table, lab, nl, scaled)
         f = [e[0].astype(float) / e[1] for e in ex]
-        obs[key] = {"s_raw": f[2] / f[1], "f_raw": f[3] / f[1], "omega": f[4] / f[1], "dty": f[5] / f[1],
-                    "Number_of_pixels": f[0], "sum_intensity": f[1], "spot3d_id": np.arange(nl), "npk2d": f[6]}
+        with np.errstate(all="ignore"):           # total weight 0: nan, as the code
+            obs[key] = {"s_raw": f[2] / f[1], "f_raw": f[3] / f[1], "omega": f[4] / f[1], "dty": f[5] / f[1],
+                        "Number_of_pixels": f[0], "sum_intensity": f[1], "spot3d_id": np.arange(nl), "npk2d": f[6]}
+        obs["kernel_" + key[-1]] = np.array(f)
     for key, scaled in (("pk2d_u", False), ("pk2d_s", True)):
         obs[key] = {"s_raw": srI / sI.astype(float), "f_raw": scI / sI.astype(float),
                     "omega": table.omega().flat[frm], "dty": table.dty().flat[frm], "Number_of_pixels": s1,
@@ -2103,10 +2140,37 @@ def selftest(full=True):
         for name in ("Number_of_pixels", "sum_intensity", "s_raw", "f_raw", "omega", "dty", "npk2d"):
             o2 = dict(obs)
             m = {k: np.array(v, float) for k, v in obs[key].items()}
-            m[name][0] += 1e-7 * (1.0 + float(np.max(np.abs(m[name]))))
+            j0 = int(np.argmax(np.isfinite(m["omega"])))          # a merged peak whose mean is defined
+            m[name][j0] += 1e-7 * (1.0 + float(np.nanmax(np.abs(m[name]))))
             o2[key] = m
             if not judge(n, root, table, o2):
                 raise common.MachineryError("selftest: perturbed %s[%s] accepted" % (key, name))
+        o2 = dict(obs)
+        o2["kernel_" + key[-1]] = obs["kernel_" + key[-1]] + np.eye(7, nl)[::-1] * 1e-6
+        if not judge(n, root, table, o2):
+            raise common.MachineryError("selftest: perturbed numbapkmerge rows accepted (%s)" % key)
+    # (2a) SIGN classes: merged peaks of negative total weight get the weighted mean like any other -
+    # a table that answers 0.0 for them (np.divide(..., where=total > 0)) must be rejected
+    nsign = 0
+    for sd_t in range(3, 40):
+        ts = L.make_table(n, sd_t)
+        os_ = synthetic_obs(n, root, ts)
+        if judge(n, root, ts, os_):
+            raise common.MachineryError("selftest: a correct output was rejected (table seed %d): %s"
+                                        % (sd_t, judge(n, root, ts, os_)))
+        for key in ("merge_u", "merge_s"):
+            negw = np.asarray(os_[key]["sum_intensity"]) < 0
+            if not negw.any():
+                continue
+            m = {k: np.array(v, float) for k, v in os_[key].items()}
+            for name in ("s_raw", "f_raw", "omega", "dty"):
+                m[name] = np.where(negw, 0.0, m[name])
+            if not judge(n, root, ts, dict(os_, **{key: m})):
+                raise common.MachineryError("selftest: means of merged peaks of negative total weight "
+                                            "replaced by 0 accepted (%s)" % key)
+            nsign += 1
+    if nsign < 4:
+        raise common.MachineryError("selftest: the random tables hold no merged peak of negative total weight")
     t2 = copy.deepcopy(table)
     t2.sc_num = t2.sc_num + 1
     if not judge(n, root, t2, obs):
@@ -2178,13 +2242,23 @@ def selftest(full=True):
     root2 = L.roots_unionfind(n2, ei2, ej2)
     nl2, lab2 = L.expected_labels(root2)
     nvt = 0
-    for kind, lay in (("wide", "mixA"), ("zero", "mixB"), ("monitor", "C64")):
+    for kind, lay in (("wide", "mixA"), ("zero", "mixB"), ("monitor", "C64"), ("neg", "mixA"), ("negmon", "C64")):
         ft = L.make_vtable(kind, n2, 7, root2, lay)
         for scaled in (False, True):
             m = synthetic_merge_f(ft, lab2, nl2, scaled)
             pr = L.judge_merge(ft, lab2, nl2, scaled, m)
             if pr:
                 raise common.MachineryError("selftest: exact merged table rejected (%s): %s" % (ft.kind, pr[0]))
+            negw = m["sum_intensity"] < 0
+            if kind in ("neg", "negmon") and scaled and not negw.any():
+                raise common.MachineryError("selftest: value class %s has no merged peak of negative weight" % kind)
+            if negw.any():
+                m2 = dict(m)
+                for name in ("s_raw", "f_raw", "omega", "dty"):
+                    m2[name] = np.where(negw, 0.0, m[name])
+                if not L.judge_merge(ft, lab2, nl2, scaled, m2):
+                    raise common.MachineryError("selftest: means of merged peaks of negative total weight "
+                                                "replaced by 0 accepted (%s)" % ft.kind)
             j = int(np.argmax(np.isfinite(m["omega"]) & (np.bincount(lab2, minlength=nl2) > 1)))
             for name in ("Number_of_pixels", "sum_intensity", "s_raw", "f_raw", "omega", "dty", "npk2d"):
                 m2 = {k: np.array(v, float) for k, v in m.items()}
